@@ -53,6 +53,32 @@ pub fn val_cmp(a: &E, b: &E) -> Ordering {
     }
 }
 
+/// exact comparison of an integer with a double (bit pattern); NaN is greatest
+pub fn cmp_int_float(z: i64, bits: u64) -> Ordering {
+    let f = f64::from_bits(bits);
+    if f.is_nan() {
+        return Ordering::Less;
+    }
+    if f.is_infinite() || f.abs() >= 9.3e18 {
+        return if f > 0.0 { Ordering::Less } else { Ordering::Greater };
+    }
+    let t = f.trunc();
+    let ti = t as i128; // exact: |t| < 2^64
+    match (z as i128).cmp(&ti) {
+        Ordering::Equal => {
+            let fr = f - t;
+            if fr > 0.0 {
+                Ordering::Less
+            } else if fr < 0.0 {
+                Ordering::Greater
+            } else {
+                Ordering::Equal
+            }
+        }
+        o => o,
+    }
+}
+
 pub fn spec_arith(op: &str, a: i64, b: i64) -> Result<E, Fail> {
     match crate::c06_kernel::exact(op, a, b) {
         None => Err(Fail::Overflow),
@@ -101,10 +127,12 @@ pub fn eval_expr(row: &[V], e: &Expr) -> Result<E, Fail> {
                     (&a, &b),
                     (E::V(V::Int(_)), E::V(V::Int(_))) | (E::V(V::Float(_)), E::V(V::Float(_))) | (E::V(V::Str(_)), E::V(V::Str(_)))
                 );
-                if !same {
-                    return Err(Fail::Type);
-                }
-                let c = val_cmp(&a, &b);
+                let c = match (&a, &b) {
+                    (E::V(V::Int(x)), E::V(V::Float(y))) => cmp_int_float(*x, *y),
+                    (E::V(V::Float(x)), E::V(V::Int(y))) => cmp_int_float(*y, *x).reverse(),
+                    _ if same => val_cmp(&a, &b),
+                    _ => return Err(Fail::Type),
+                };
                 E::Bool(match *op {
                     "eq" => c == Ordering::Equal,
                     "ne" => c != Ordering::Equal,
@@ -465,4 +493,127 @@ pub fn valid(q: &Query, table: &[Vec<V>], out: &crate::db::QOut) -> Result<(), S
         },
         other => Err(format!("engine-failure: {}", other.signature())),
     }
+}
+
+
+// ---- what kind of difference? --------------------------------------------------------------------
+
+fn cell_relation(exp: &E, act: &V) -> Option<&'static str> {
+    if cell_match(exp, act) {
+        return None;
+    }
+    Some(match (exp, act) {
+        (E::V(V::Int(0)), V::Null) => "null-for-zero",
+        (E::V(V::Null), V::Null) => return None,
+        (E::V(V::Null), _) => "value-for-null",
+        (_, V::Null) => "null-for-value",
+        (E::V(V::Int(x)), V::Float(b)) => {
+            let f = f64::from_bits(*b);
+            if f == *x as f64 {
+                "float-for-int"
+            } else {
+                "wrong-float-for-int"
+            }
+        }
+        _ => "wrong-value",
+    })
+}
+
+fn key_repr(vs: &[String]) -> String {
+    vs.join("\u{1}")
+}
+
+fn e_repr(e: &E) -> String {
+    match e {
+        E::V(V::Float(b)) => format!("f{}", float_key(*b)),
+        E::V(v) => format!("{:?}", v),
+        other => format!("{:?}", other),
+    }
+}
+
+fn v_repr(v: &V) -> String {
+    match v {
+        V::Float(b) => format!("f{}", float_key(canon_float(*b))),
+        v => format!("{:?}", v),
+    }
+}
+
+/// A coarse description of HOW a row result differs from the expected one (part of the failure
+/// bucket, so that a known engine gap only suppresses its own symptom):
+///   aggregate queries: dup-groups / missing-groups / extra-groups, or per aggregate the relation of
+///   the wrong cell (`sum:float-for-int`, `count:null-for-zero`, `max:wrong-value`, ...);
+///   other queries: order-only / missing-rows / extra-rows / other-rows.
+pub fn diff_kind(q: &Query, table: &[Vec<V>], out: &[Vec<V>]) -> String {
+    let classes = match eval_classes(q, table) {
+        Ok(c) => c,
+        Err(_) => return "must-fail".into(),
+    };
+    let expected: Vec<&PRow> = classes.iter().flatten().collect();
+    let mut kinds: Vec<String> = vec![];
+    let mut add = |k: String| {
+        if !kinds.contains(&k) {
+            kinds.push(k)
+        }
+    };
+    if q.is_agg() {
+        let key_pos: Vec<usize> = q.select.iter().enumerate().filter(|(_, s)| !s.is_agg()).map(|(i, _)| i).collect();
+        let ekey = |r: &PRow| key_repr(&key_pos.iter().map(|i| e_repr(&r[*i])).collect::<Vec<_>>());
+        let okey = |r: &Vec<V>| key_repr(&key_pos.iter().map(|i| r.get(*i).map_or("?".to_string(), v_repr)).collect::<Vec<_>>());
+        let mut seen: std::collections::HashMap<String, usize> = std::collections::HashMap::new();
+        for r in out {
+            *seen.entry(okey(r)).or_insert(0) += 1;
+        }
+        if seen.values().any(|c| *c > 1) {
+            add("dup-groups".into());
+        }
+        let ekeys: std::collections::HashSet<String> = expected.iter().map(|r| ekey(r)).collect();
+        if q.limit.is_none() && q.offset == 0 && ekeys.iter().any(|k| !seen.contains_key(k)) {
+            add("missing-groups".into());
+        }
+        if seen.keys().any(|k| !ekeys.contains(k)) {
+            add("extra-groups".into());
+        }
+        for r in out {
+            if let Some(e) = expected.iter().find(|e| ekey(e) == okey(r)) {
+                for (i, s) in q.select.iter().enumerate() {
+                    if s.is_agg() {
+                        if let Some(rel) = r.get(i).and_then(|a| cell_relation(&e[i], a)) {
+                            let name = match s {
+                                Sel::Agg(k, _) => *k,
+                                Sel::Avg(_) => "avg",
+                                _ => "?",
+                            };
+                            add(format!("{}:{}", name, rel));
+                        }
+                    }
+                }
+            }
+        }
+    } else {
+        let mut pool: Vec<&PRow> = expected.clone();
+        let mut unmatched = 0usize;
+        for r in out {
+            match pool.iter().position(|e| e.len() == r.len() && e.iter().zip(r).all(|(e, a)| cell_match(e, a))) {
+                Some(i) => {
+                    pool.remove(i);
+                }
+                None => unmatched += 1,
+            }
+        }
+        let windowed = q.limit.is_some() || q.offset > 0;
+        if unmatched == 0 && (pool.is_empty() || windowed) {
+            add(if windowed { "order-or-window".into() } else { "order-only".into() });
+        } else if unmatched == 0 {
+            add("missing-rows".into());
+        } else if pool.is_empty() || windowed {
+            add("extra-rows".into());
+        } else {
+            add("other-rows".into());
+        }
+    }
+    if kinds.is_empty() {
+        kinds.push("unclassified".into());
+    }
+    kinds.sort();
+    kinds.join("+")
 }
